@@ -31,16 +31,16 @@ Ltac other_type t :=
     let E := fresh "E" in pose proof (proj2 (Z.eqb_neq t c) H) as E; clear H; rewrite ?E end.
 
 Ltac finish :=
-  cbv zeta; cbn [app length];
+  cbv zeta;
   (let H := fresh in intros H; first [discriminate H | injection H as <-]);
   unfold trailer, hcontext, key_block, uid_block; cbn [sf_ver sf_type sf_pkalg sf_halg sf_hashed];
   rewrite ?Z.gtb_ltb;
   repeat match goal with |- context [if ?c then _ else _] => destruct c end;
-  cbn [app]; repeat rewrite <- app_assoc; cbn [app]; try reflexivity.
+  repeat (progress (cbn [app]; repeat rewrite <- app_assoc)); try reflexivity.
 
 Ltac run t :=
-  unfold gen_hashdata, hash_body, is_cert_type, is_binding_type, is_key_type;
-  split_type t; [cbn [existsb orb andb negb Z.eqb Pos.eqb] .. | other_type t; cbn [existsb orb andb negb] ]; finish.
+  unfold gen_hashdata, hash_body, is_cert_type, is_binding_type, is_key_type; cbn [existsb];
+  split_type t; cbn [orb andb negb Z.eqb Pos.eqb]; finish.
 
 Section Sig.
 Variable f : sigfields.
@@ -51,4 +51,67 @@ Lemma refine_hashdata_doc d b ske b1 b2 b3 b4 x1 x2 x3 x4 :
   hash_body (sf_type f) (SDoc d) = Some b ->
   G d ske b1 b2 b3 b4 x1 x2 x3 x4 = b ++ trailer f.
 Proof. subst G. destruct f as [ver t pk h hashed]. cbn [sf_ver sf_type sf_pkalg sf_halg sf_hashed]. run t. Qed.
+
+(* a user id u on the key whose packet body is kb: subject is a PGPUID (isinstance .. PGPUID, is_uid),
+   subject._parent.hashdata = kb, subject.hashdata = u *)
+Lemma refine_hashdata_uid kb u b d ske b2 b3 x3 x4 :
+  hash_body (sf_type f) (SUid kb u) = Some b ->
+  G d ske true b2 b3 true u kb x3 x4 = b ++ trailer f.
+Proof. subst G. destruct f as [ver t pk h hashed]. cbn [sf_ver sf_type sf_pkalg sf_halg sf_hashed]. run t. Qed.
+
+(* a user attribute: a PGPUID whose is_uid is false *)
+Lemma refine_hashdata_uattr kb ua b d ske b2 b3 x3 x4 :
+  hash_body (sf_type f) (SUattr kb ua) = Some b ->
+  G d ske true b2 b3 false ua kb x3 x4 = b ++ trailer f.
+Proof. subst G. destruct f as [ver t pk h hashed]. cbn [sf_ver sf_type sf_pkalg sf_halg sf_hashed]. run t. Qed.
+
+(* a key (direct-key signature 0x1F, key revocation 0x20): subject.hashdata = kb *)
+Lemma refine_hashdata_key kb b d ske b1 b2 b3 b4 x2 x3 x4 :
+  hash_body (sf_type f) (SKey kb) = Some b ->
+  G d ske b1 b2 b3 b4 kb x2 x3 x4 = b ++ trailer f.
+Proof. subst G. destruct f as [ver t pk h hashed]. cbn [sf_ver sf_type sf_pkalg sf_halg sf_hashed]. run t. Qed.
+
+(* subkey sb of primary pb, the Python-level subject being the SUBKEY object (bindings 0x18 / 0x19, subkey
+   revocation 0x28): not a PGPUID, a PGPKey, not primary; _parent.hashdata = parent.hashdata = pb, hashdata = sb *)
+Lemma refine_hashdata_subkey pb sb b d ske b4 x4 :
+  hash_body (sf_type f) (SSubkey pb sb) = Some b ->
+  G d ske false true false b4 sb pb pb x4 = b ++ trailer f.
+Proof. subst G. destruct f as [ver t pk h hashed]. cbn [sf_ver sf_type sf_pkalg sf_halg sf_hashed]. run t. Qed.
+
+(* the same pair with the PRIMARY as the Python-level subject (bindings only): hashdata = pb,
+   subkeys[self.signer].hashdata = sb *)
+Lemma refine_hashdata_subkey_via_primary pb sb b d ske b4 x2 x3 :
+  is_binding_type (sf_type f) = true ->
+  hash_body (sf_type f) (SSubkey pb sb) = Some b ->
+  G d ske false true true b4 pb x2 x3 sb = b ++ trailer f.
+Proof.
+  subst G. destruct f as [ver t pk h hashed]. cbn [sf_ver sf_type sf_pkalg sf_halg sf_hashed].
+  unfold is_binding_type at 1. cbn [existsb]. intros Hb.
+  assert (Ht : t = 24 \/ t = 25) by lia. clear Hb.
+  destruct Ht as [-> | ->]; unfold gen_hashdata, hash_body, is_cert_type, is_binding_type, is_key_type;
+    cbn [existsb orb andb negb Z.eqb Pos.eqb]; finish.
+Qed.
+
+(* corollary in the vocabulary of the model: whenever the model's hashdata is defined, the code's octets are the model's *)
+Lemma refine_hashdata_doc_model d r ske b1 b2 b3 b4 x1 x2 x3 x4 :
+  hashdata f (SDoc d) = Some r -> G d ske b1 b2 b3 b4 x1 x2 x3 x4 = r.
+Proof.
+  unfold hashdata. destruct (hash_body (sf_type f) (SDoc d)) eqn:E; [|discriminate].
+  intros [= <-]. apply refine_hashdata_doc. exact E.
+Qed.
+Lemma refine_hashdata_uid_model kb u r d ske b2 b3 x3 x4 :
+  hashdata f (SUid kb u) = Some r -> G d ske true b2 b3 true u kb x3 x4 = r.
+Proof.
+  unfold hashdata. destruct (hash_body (sf_type f) (SUid kb u)) eqn:E; [|discriminate].
+  intros [= <-]. apply refine_hashdata_uid. exact E.
+Qed.
 End Sig.
+
+(* the trailer alone (standalone / timestamp / third-party-confirmation signatures hash nothing else) *)
+Lemma refine_trailer f d ske b1 b2 b3 b4 x1 x2 x3 x4 :
+  sf_type f = 2 \/ sf_type f = 64 \/ sf_type f = 80 ->
+  gen_hashdata canon (sf_type f) (sf_pkalg f) (sf_halg f) (sf_ver f) (sf_hashed f) d ske b1 b2 b3 b4 x1 x2 x3 x4 = trailer f.
+Proof.
+  intros H. change (trailer f) with ([] ++ trailer f). apply refine_hashdata_doc.
+  unfold hash_body. destruct H as [-> | [-> | ->]]; reflexivity.
+Qed.
